@@ -192,6 +192,13 @@ var templates = []func(u string) string{
 		return "rec(make([]float32, 1))\nrec(make(float32))\nmake(type uint32, w0)\nrec(make([]uint32, 1))\nfunc() { make(type uint, w0); rec(make([]uint, 1)) }()\nrec(make([]uint, 1))\nrec(make(map[string]float32))"
 	},
 	func(u string) string {
+		// one member expression, receivers of one type held in different ways; the order differs between configurations
+		a := "b" + u + " = make(bb" + u + ".Buffer)\nb" + u + ".WriteString(hostUp(\"w\"))\nrec(b" + u + ".String())\nrec(b" + u + ".Len())"
+		b := "for c" + u + " in [make(bb" + u + ".Buffer)] { c" + u + ".WriteString(\"x\"); rec(c" + u + ".String()) }"
+		c := "p" + u + " = new(bb" + u + ".Buffer)\np" + u + ".WriteString(\"p\")\nrec(p" + u + ".String())"
+		return "bb" + u + " = import(\"bytes\")\nif ow {\n" + a + "\n" + b + "\n" + c + "\n} else {\n" + c + "\n" + b + "\n" + a + "\n}"
+	},
+	func(u string) string {
 		return "switch base {\ncase 10:\nrec(\"a\")\ncase 20:\nrec(\"b\")\ncase 30:\nrec(\"c\")\n}\nswitch hostUp(\"\") {\ncase \"up0:\":\nrec(0)\ncase \"up1:\":\nrec(1)\ndefault:\nrec(2)\n}\nswitch base / 10 {\ncase 1, 2:\nrec(\"lo\")\ncase 3, 4:\nrec(\"hi\")\n}"
 	},
 }
@@ -583,6 +590,10 @@ const globalsSrc = "r = []\nr += 4095 + 0\nr += 4095 + 1\nr += -1 + 0\nr += -2 +
 	"q = []\nq += t.ToUpper(\"y\") == up(\"y\")\nq += s.ToUpper(\"y\") == \"hacked\"\n" +
 	"import(\"strings\").ToLower = func(a) { return \"hacked\" }\nq += import(\"strings\").ToLower(\"Z\") == lo(\"Z\")\n" +
 	"sm = make(struct { N string, T map[string]int64 })\nr += len(sm.T)\nsm.T[\"k\"] = 1\nsm.N = \"w\"\nsn = make(struct { N string, T map[string]int64 })\nr += len(sn.T)\nr += sn.N\n" +
+	// methods and fields reached through values of one type that differ in how they are held (variable,
+	// loop variable, pointer): whatever resolving a member remembers must not depend on who asked first
+	"bb = import(\"bytes\")\nb1 = make(bb.Buffer)\nb1.WriteString(\"hello\")\nr += b1.String()\nfor b2 in [make(bb.Buffer)] { b2.WriteString(\"x\"); r += b2.String() }\nb3 = new(bb.Buffer)\nb3.WriteString(\"again\")\nr += b3.String()\nr += b1.Len()\n" +
+	"tt = import(\"time\")\nd1 = tt.Second\nr += d1.String()\nfor d2 in [tt.Second] { r += d2.String() }\n" +
 	"func noresult() { }\nq += typeOf(nil) == typeOf([nil][0])\nq += typeOf(noresult()) == typeOf(nil)\nq += typeOf(nil) != typeOf(1)\n[r, q]\n"
 
 const relationalWant = "[true true true true true true]"
